@@ -14,6 +14,10 @@
 //            linearisation point.  A share of cases has no sentinel (only
 //            then can the socket have a single context) and linearises with
 //            vf_quiesce() on inproc.
+//            Up to three asynchronous receives may wait on one context:
+//            exactly one of them must get an arriving message.  1/20 of the
+//            topics and 1/30 of the bodies are long (60-700 bytes, repeat
+//            patterns with long common prefixes; some bodies 66-150 KB).
 //   dettcp   det restricted to tcp with the sentinel.
 //   conc     2 publisher threads, one thread per subscriber context, one
 //            option-setter thread.  Interval oracle: a received body must
@@ -21,6 +25,11 @@
 //            instant between max(publish call, receive call) and receive
 //            return; bytes unaltered; per publisher strictly increasing
 //            sequence numbers (no duplicate, no reorder).
+//            Two witness contexts (3/4 of the cases): W1 (topic "", buffers
+//            larger than the traffic) must receive everything = loss oracle
+//            and arrival order; W2 (fixed topic/RECVBUF/PREFNEW, irregular
+//            reader) is judged against "exactly one drop per arrival while
+//            full" using W1's arrival order and publish/receive time stamps.
 //   noblock  PUB with SENDBUF in {1,2,16} against raw TCP peers that finish
 //            the SP handshake as SUB and then never read: every nng_sendmsg
 //            must return 0 (SENDTIMEO 10 s turns a blocked send into a
@@ -1341,7 +1350,32 @@ struct conc {
 	atomic_int pub_err[2];
 	long       setter_ops;
 	vf_rng     setter_r;
+	// witnesses (see c_w1_thread / c_w2_thread)
+	bool       witnesses;
+	nng_ctx    w1, w2;
+	atomic_int all_arrived; // 1: W1 has everything, 2: W1 gave up
+	int        total;
+	struct {
+		uint8_t pub;
+		int     seq;
+	} arr[2 * C_MAXSEQ]; // arrival order at the socket, as seen by W1
+	int        narr;
+	char       w1_fail[300]; // non-empty: W1 missed something
+	char       w1_key[96];
+	int        w2_cap;
+	bool       w2_prefnew;
+	topic_t    w2_topic;
+	struct {
+		uint8_t  pub;
+		int      seq;
+		uint64_t t_r;
+	} w2r[2 * C_MAXSEQ];
+	int        w2n;
+	char       w2_fail[300];
+	char       w2_key[96];
 };
+
+static long sock_stat(nng_socket s, const char *name);
 
 static void
 c_body(uint64_t key, int pub, int seq, body_t *b)
@@ -1589,14 +1623,225 @@ c_setter_thread(void *arg)
 	return NULL;
 }
 
+// W1: fixed subscription "", RECVBUF larger than everything that will be
+// published, nobody changes its options, publishers' SENDBUF larger than
+// what they publish: it must receive every message of both publishers, in
+// per-publisher order, with blocking receives.  Its receive order is the
+// order in which sub0_recv_cb processed the arrivals for every context.
+static void *
+c_w1_thread(void *arg)
+{
+	conc_t *c = arg;
+	long    last[2] = { -1, -1 };
+	while (c->narr < c->total) {
+		nng_msg *m = NULL;
+		int      rv = nng_ctx_recvmsg(c->w1, &m, 0); // RECVTIMEO 20 s
+		if (rv != 0) {
+			snprintf(c->w1_key, sizeof(c->w1_key), rv == NNG_ETIMEDOUT ? "C05/conc/lost-with-room" : "C05/conc/recv-error");
+			snprintf(c->w1_fail, sizeof(c->w1_fail),
+			    "context subscribed to \"\" with RECVBUF 8192 got %d of %d messages (next expected: publisher 0 #%ld, publisher 1 #%ld), then a blocking receive returned %s",
+			    c->narr, c->total, last[0] + 1, last[1] + 1, nng_strerror(rv));
+			break;
+		}
+		const uint8_t *b   = nng_msg_body(m);
+		size_t         len = nng_msg_len(m);
+		body_t         want;
+		int            pub = len >= 3 ? b[len - 3] - 0xe0 : -1;
+		int            seq = len >= 3 ? (b[len - 2] << 8) | b[len - 1] : -1;
+		if (pub < 0 || pub > 1 || seq >= c->nmsgs[pub]) {
+			snprintf(c->w1_key, sizeof(c->w1_key), "C05/conc/altered");
+			snprintf(c->w1_fail, sizeof(c->w1_fail), "witness received %s which no publisher sent", hx(b, len));
+			nng_msg_free(m);
+			break;
+		}
+		c_body(c->key, pub, seq, &want);
+		if (want.len != len || memcmp(want.b, b, len) != 0) {
+			snprintf(c->w1_key, sizeof(c->w1_key), "C05/conc/altered");
+			snprintf(c->w1_fail, sizeof(c->w1_fail), "publisher %d message %d arrived as %s", pub, seq, hx(b, len));
+			nng_msg_free(m);
+			break;
+		}
+		nng_msg_free(m);
+		if (seq != last[pub] + 1) {
+			snprintf(c->w1_key, sizeof(c->w1_key), seq > last[pub] ? "C05/conc/lost-with-room" : seq == last[pub] ? "C05/conc/duplicate" : "C05/conc/reordered");
+			snprintf(c->w1_fail, sizeof(c->w1_fail),
+			    "context subscribed to \"\" with RECVBUF 8192 (never full): after message %ld of publisher %d came message %d",
+			    last[pub], pub, seq);
+			break;
+		}
+		last[pub]            = seq;
+		c->arr[c->narr].pub  = (uint8_t) pub;
+		c->arr[c->narr].seq  = seq;
+		c->narr++;
+	}
+	atomic_store(&c->all_arrived, c->narr == c->total ? 1 : 2);
+	return NULL;
+}
+
+// W2: fixed topic, fixed RECVBUF and PREFNEW, nobody changes them; receives
+// at an irregular pace so that its buffer overflows.  What it received is
+// judged afterwards against the arrival order recorded by W1.
+static void *
+c_w2_thread(void *arg)
+{
+	conc_t *c = arg;
+	vf_rng  r;
+	vf_rng_seed(&r, c->key, 777);
+	for (;;) {
+		int      phase = atomic_load(&c->all_arrived);
+		nng_msg *m     = NULL;
+		int      rv    = nng_ctx_recvmsg(c->w2, &m, NNG_FLAG_NONBLOCK);
+		uint64_t t     = vf_now_ns();
+		if (rv == 0) {
+			const uint8_t *b   = nng_msg_body(m);
+			size_t         len = nng_msg_len(m);
+			if (len >= 3 && c->w2n < 2 * C_MAXSEQ) {
+				c->w2r[c->w2n].pub = (uint8_t) (b[len - 3] - 0xe0);
+				c->w2r[c->w2n].seq = (b[len - 2] << 8) | b[len - 1];
+				c->w2r[c->w2n].t_r = t;
+				c->w2n++;
+			}
+			nng_msg_free(m);
+			if (phase == 0 && vf_chance(&r, 1, 3)) vf_usleep((int) vf_below(&r, 400));
+			continue;
+		}
+		if (rv != NNG_EAGAIN) {
+			snprintf(c->w2_key, sizeof(c->w2_key), "C05/conc/recv-error");
+			snprintf(c->w2_fail, sizeof(c->w2_fail), "NONBLOCK receive: %s", nng_strerror(rv));
+			break;
+		}
+		// empty.  Once W1 has seen everything nothing more can arrive.
+		if (phase != 0) break;
+		vf_usleep((int) vf_range(&r, 20, 600));
+	}
+	return NULL;
+}
+
+static void
+w2_violation(conc_t *c, const char *key, const char *fmt, ...)
+{
+	va_list ap;
+	if (c->w2_fail[0]) return;
+	snprintf(c->w2_key, sizeof(c->w2_key), "%s", key);
+	va_start(ap, fmt);
+	vsnprintf(c->w2_fail, sizeof(c->w2_fail), fmt, ap);
+	va_end(ap);
+}
+
+// Judge W2 against a bounded FIFO that drops exactly one message per
+// arrival while full.  ap[] = arrivals (indices into c->arr) that match
+// W2's topic, in arrival order; got[i] = index into w2r of the receive of
+// ap[i], or -1 if W2 never received it.
+static void
+c_judge_w2(conc_t *c, long *drops_judged)
+{
+	static int ap[2 * C_MAXSEQ], got[2 * C_MAXSEQ], pos[2][C_MAXSEQ];
+	int        n = 0, C = c->w2_cap;
+	for (int i = 0; i < c->narr; i++) {
+		body_t b;
+		c_body(c->key, c->arr[i].pub, c->arr[i].seq, &b);
+		pos[c->arr[i].pub][c->arr[i].seq] = -1;
+		if (t_prefix(&c->w2_topic, b.b, b.len)) {
+			pos[c->arr[i].pub][c->arr[i].seq] = n;
+			got[n]                              = -1;
+			ap[n++]                             = i;
+		}
+	}
+	int prev = -1;
+	for (int k = 0; k < c->w2n; k++) {
+		int pub = c->w2r[k].pub, seq = c->w2r[k].seq;
+		if (pub > 1 || seq >= c->nmsgs[pub]) {
+			w2_violation(c, "C05/conc/altered", "fixed-topic context received a message no publisher sent");
+			return;
+		}
+		int i = pos[pub][seq];
+		if (i < 0) {
+			w2_violation(c, "C05/conc/delivered-without-matching-subscription",
+			    "context with the single fixed topic %s received publisher %d message %d which it does not prefix",
+			    hx(c->w2_topic.b, c->w2_topic.len), pub, seq);
+			return;
+		}
+		if (got[i] >= 0) {
+			w2_violation(c, "C05/conc/duplicate", "fixed-topic context received publisher %d message %d twice", pub, seq);
+			return;
+		}
+		got[i] = k;
+		if (i < prev) {
+			// Order across publishers differs from W1's.  Only the order
+			// per publisher is stated by the property (and is checked
+			// here: same publisher => reordered).
+			for (int q = 0; q < k; q++) {
+				if (c->w2r[q].pub == pub && c->w2r[q].seq > seq) {
+					w2_violation(c, "C05/conc/reordered", "fixed-topic context got publisher %d message %d after %d", pub, seq, c->w2r[q].seq);
+					return;
+				}
+			}
+			return; // FIFO premise of the drop analysis not given: not judged
+		}
+		prev = i;
+	}
+	// drop analysis
+	for (int i = 0; i < n; i++) {
+		if (got[i] >= 0) continue;
+		int      pub = c->arr[ap[i]].pub, seq = c->arr[ap[i]].seq;
+		(*drops_judged)++;
+		if (!c->w2_prefnew) {
+			// dropped on arrival: the C messages accepted (= received)
+			// most recently before it were all still queued then
+			int cnt = 0, a1 = -1;
+			for (int q = i - 1; q >= 0 && cnt < C; q--) {
+				if (got[q] >= 0) {
+					cnt++;
+					a1 = q;
+				}
+			}
+			if (cnt < C) {
+				w2_violation(c, "C05/conc/dropped-while-not-full/prefnew-0",
+				    "context (topic %s, RECVBUF %d, PREFNEW false) never received publisher %d message %d although only %d matching messages had been accepted before it arrived",
+				    hx(c->w2_topic.b, c->w2_topic.len), C, pub, seq, cnt);
+				return;
+			}
+			uint64_t t_p = atomic_load_explicit(&c->pubtime[pub][seq], memory_order_relaxed);
+			if (c->w2r[got[a1]].t_r + C_SLACK < t_p) {
+				w2_violation(c, "C05/conc/dropped-while-not-full/prefnew-0",
+				    "context (topic %s, RECVBUF %d, PREFNEW false) never received publisher %d message %d, but of the %d messages accepted before it one had already been received before it was even published (buffer held fewer than %d)",
+				    hx(c->w2_topic.b, c->w2_topic.len), C, pub, seq, C, C);
+				return;
+			}
+		} else {
+			// evicted as the oldest by the arrival of ap[i + C]
+			if (i + C >= n) {
+				w2_violation(c, "C05/conc/dropped-while-not-full/prefnew-1",
+				    "context (topic %s, RECVBUF %d, PREFNEW true) never received publisher %d message %d although only %d matching messages arrived after it",
+				    hx(c->w2_topic.b, c->w2_topic.len), C, pub, seq, n - 1 - i);
+				return;
+			}
+			int nx = -1;
+			for (int q = i + 1; q < n && nx < 0; q++) {
+				if (got[q] >= 0) nx = q;
+			}
+			if (nx < 0) continue; // cannot happen when the check above passed
+			int      epub = c->arr[ap[i + C]].pub, eseq = c->arr[ap[i + C]].seq;
+			uint64_t t_p  = atomic_load_explicit(&c->pubtime[epub][eseq], memory_order_relaxed);
+			if (c->w2r[got[nx]].t_r + C_SLACK < t_p) {
+				w2_violation(c, "C05/conc/dropped-while-not-full/prefnew-1",
+				    "context (topic %s, RECVBUF %d, PREFNEW true) never received publisher %d message %d, yet the next message behind it was received before the %d-th later arrival (the only one that may evict it) was published",
+				    hx(c->w2_topic.b, c->w2_topic.len), C, pub, seq, C);
+				return;
+			}
+		}
+	}
+}
+
 static void
 conc_case(long idx)
 {
 	conc_t   *c = calloc(1, sizeof(*c));
 	vf_rng    r;
-	pthread_t pt[2], st[4], set;
+	pthread_t pt[2], st[4], set, wt1, wt2;
 	cpub_t    cp[2];
 	int       rv;
+	long      disc0[2] = { 0, 0 };
 
 	vf_rng_seed(&r, vf_seed, (uint64_t) idx);
 	c->key  = vf_rand(&r);
@@ -1604,16 +1849,74 @@ conc_case(long idx)
 	c->nsub = (int) vf_range(&r, 1, 4);
 	bool use_sock = vf_chance(&r, 2, 3);
 	for (int i = 0; i < 2; i++) c->nmsgs[i] = (int) vf_range(&r, 150, vf_tier ? 900 : 500);
-	vf_case_begin(idx, "conc tran=%s subs=%d sock=%d msgs=%d+%d", vf_tran_names[c->tran], c->nsub,
-	    use_sock, c->nmsgs[0], c->nmsgs[1]);
+	c->witnesses = vf_chance(&r, 3, 4);
+	c->total     = c->nmsgs[0] + c->nmsgs[1];
+	{
+		static const int wcaps[6] = { 1, 2, 3, 4, 5, 8 };
+		c->w2_cap     = wcaps[vf_below(&r, 6)];
+		c->w2_prefnew = vf_chance(&r, 1, 2);
+		c->w2_topic.len = vf_chance(&r, 1, 2) ? 0 : 1;
+		c->w2_topic.b[0] = vf_chance(&r, 1, 2) ? 'a' : 'b';
+	}
+	vf_case_begin(idx, "conc tran=%s subs=%d sock=%d msgs=%d+%d witnesses=%d w2=(%s cap %d prefnew %d)", vf_tran_names[c->tran], c->nsub,
+	    use_sock, c->nmsgs[0], c->nmsgs[1], c->witnesses, hx(c->w2_topic.b, c->w2_topic.len), c->w2_cap, c->w2_prefnew);
 	if (nng_sub0_open(&c->sub) != 0) vf_harness_fail("sub open");
+	atomic_store(&g_closing, 0);
+	atomic_store(&g_pipe_add, 0);
+	atomic_store(&g_pipe_rem, 0);
+	nng_pipe_notify(c->sub, NNG_PIPE_EV_REM_POST, pipe_cb, NULL);
+	if (c->witnesses) {
+		if (nng_ctx_open(&c->w1, c->sub) != 0 || nng_ctx_open(&c->w2, c->sub) != 0) vf_harness_fail("witness ctx");
+		if (nng_ctx_set_int(c->w1, NNG_OPT_RECVBUF, 8192) != 0) vf_harness_fail("witness RECVBUF");
+		nng_ctx_set_ms(c->w1, NNG_OPT_RECVTIMEO, 20000);
+		if (nng_sub0_ctx_subscribe(c->w1, "", 0) != 0) vf_harness_fail("witness subscribe");
+		if (nng_ctx_set_int(c->w2, NNG_OPT_RECVBUF, c->w2_cap) != 0 ||
+		    nng_ctx_set_bool(c->w2, NNG_OPT_SUB_PREFNEW, c->w2_prefnew) != 0) {
+			vf_harness_fail("witness options");
+		}
+	}
 	for (int i = 0; i < 2; i++) {
 		if (nng_pub0_open(&c->pub[i]) != 0) vf_harness_fail("pub open");
 		nng_socket_set_ms(c->pub[i], NNG_OPT_SENDTIMEO, 10000);
+		// no drops at the publisher: its per-pipe queue holds everything
+		if (c->witnesses && nng_socket_set_int(c->pub[i], NNG_OPT_SENDBUF, 2048) != 0) vf_harness_fail("SENDBUF");
+		nng_pipe_notify(c->pub[i], NNG_PIPE_EV_REM_POST, pipe_cb, NULL);
 		if ((rv = vf_connect(c->pub[i], c->sub, c->tran)) != 0) {
 			vf_harness_fail("connect: %s", nng_strerror(rv));
 		}
+		if (c->witnesses) {
+			// wait until the pipe really carries messages (W1 sees a probe),
+			// then flush the probes with a fence
+			uint8_t  probe[3] = { 0x01, 'P', (uint8_t) i }, fence[3] = { 0x01, 'F', (uint8_t) i };
+			bool     up = false, fenced = false;
+			uint64_t t0 = vf_now_ns();
+			nng_ctx_set_ms(c->w1, NNG_OPT_RECVTIMEO, 25);
+			while (!up && vf_now_ns() - t0 < 20000000000ULL) {
+				nng_msg *m = NULL;
+				if (raw_publish(c->pub[i], probe, 3, 0) != 0) vf_harness_fail("probe send");
+				if (nng_ctx_recvmsg(c->w1, &m, 0) == 0) {
+					up = nng_msg_len(m) == 3 && memcmp(nng_msg_body(m), probe, 3) == 0;
+					nng_msg_free(m);
+				}
+			}
+			nng_ctx_set_ms(c->w1, NNG_OPT_RECVTIMEO, 20000);
+			if (up && raw_publish(c->pub[i], fence, 3, 0) != 0) vf_harness_fail("fence send");
+			while (up && !fenced) {
+				nng_msg *m = NULL;
+				if (nng_ctx_recvmsg(c->w1, &m, 0) != 0) break;
+				fenced = nng_msg_len(m) == 3 && memcmp(nng_msg_body(m), fence, 3) == 0;
+				nng_msg_free(m);
+			}
+			if (!fenced) {
+				// as in det mode: connection trouble is not judged here
+				c->witnesses = false;
+				abandoned_connect++;
+				fprintf(stderr, "note: case %ld: witness could not be synchronised with publisher %d\n", idx, i);
+			}
+			disc0[i] = sock_stat(c->pub[i], "tx_discard");
+		}
 	}
+	if (c->witnesses && nng_sub0_ctx_subscribe(c->w2, c->w2_topic.b, c->w2_topic.len) != 0) vf_harness_fail("witness subscribe");
 	for (int i = 0; i < c->nsub; i++) {
 		csub_t *s = &c->cs[i];
 		s->c      = c;
@@ -1631,6 +1934,11 @@ conc_case(long idx)
 		if (nng_aio_alloc(&s->aio, NULL, NULL) != 0) vf_harness_fail("aio");
 	}
 	vf_rng_seed(&c->setter_r, c->key, 99);
+	bool wit = c->witnesses; // (threads started <=> joined)
+	if (wit) {
+		pthread_create(&wt1, NULL, c_w1_thread, c);
+		pthread_create(&wt2, NULL, c_w2_thread, c);
+	}
 	for (int i = 0; i < c->nsub; i++) pthread_create(&st[i], NULL, c_sub_thread, &c->cs[i]);
 	pthread_create(&set, NULL, c_setter_thread, c);
 	for (int i = 0; i < 2; i++) {
@@ -1640,10 +1948,44 @@ conc_case(long idx)
 		pthread_create(&pt[i], NULL, c_pub_thread, &cp[i]);
 	}
 	for (int i = 0; i < 2; i++) pthread_join(pt[i], NULL);
-	vf_quiesce(1, 5000);
+	if (wit) {
+		// W1 ends when it has everything (or 20 s after the last message)
+		pthread_join(wt1, NULL);
+		pthread_join(wt2, NULL);
+	} else {
+		vf_quiesce(1, 5000);
+	}
 	atomic_store(&c->stop, 1);
 	for (int i = 0; i < c->nsub; i++) pthread_join(st[i], NULL);
 	pthread_join(set, NULL);
+	if (wit) {
+		// premises of the loss oracle: nothing was dropped at a publisher
+		// and no pipe went away
+		long disc = 0;
+		bool pub_ok = atomic_load(&c->pub_err[0]) == 0 && atomic_load(&c->pub_err[1]) == 0;
+		for (int i = 0; i < 2; i++) disc += sock_stat(c->pub[i], "tx_discard") - disc0[i];
+		if (disc != 0 || atomic_load(&g_pipe_rem) > 0 || !pub_ok) {
+			abandoned_pipe_lost++;
+			fprintf(stderr, "note: case %ld: witness verdict dropped (publisher discards %ld, pipes removed %d)\n", idx, disc,
+			    atomic_load(&g_pipe_rem));
+		} else if (c->w1_fail[0]) {
+			vf_violation(c->w1_key, "%s", c->w1_fail);
+		} else {
+			long dj = 0;
+			if (!c->w2_fail[0]) c_judge_w2(c, &dj);
+			if (c->w2_fail[0]) vf_violation(c->w2_key, "%s", c->w2_fail);
+			vf_stat("witness_cases_complete", 1);
+			vf_stat("witness_messages_all_received", c->narr);
+			vf_stat("witness2_received", c->w2n);
+			vf_stat("witness2_drops_judged", dj);
+			vf_stat("compared", c->narr + c->w2n);
+			vf_class("witness/%s/topic-%s/cap-%d/prefnew-%d/%s", vf_tran_names[c->tran], c->w2_topic.len ? "one-byte" : "empty",
+			    c->w2_cap, c->w2_prefnew, dj ? "drops" : "no-drops");
+		}
+		nng_ctx_close(c->w1);
+		nng_ctx_close(c->w2);
+	}
+	atomic_store(&g_closing, 1);
 
 	for (int i = 0; i < 2; i++) {
 		int e = atomic_load(&c->pub_err[i]);
@@ -1774,35 +2116,65 @@ noblock_case(long idx)
 	uint64_t worst = 0;
 	size_t   budget = (size_t) 96 << 20;
 	bool     bad = false;
+	bool     resize_plan = vf_chance(&r, 1, 2), resized = false;
+	long     aio_stuck = 0;
+	nng_aio *saio;
+	if (nng_aio_alloc(&saio, NULL, NULL) != 0) vf_harness_fail("aio");
+	nng_aio_set_timeout(saio, 10000);
 	for (long i = 0; i < 20000 && !bad; i++) {
 		nng_msg *m;
-		int      flags = (i % 3) == 2 ? NNG_FLAG_NONBLOCK : 0;
+		int      form  = (int) (i % 4); // 0,1 blocking  2 NONBLOCK  3 aio
+		int      flags = form == 2 ? NNG_FLAG_NONBLOCK : 0;
 		if (nng_msg_alloc(&m, msz) != 0) vf_harness_fail("alloc");
 		memset(nng_msg_body(m), 'a', 8);
 		uint64_t t0 = vf_now_ns();
-		rv          = nng_sendmsg(pub, m, flags);
+		if (form == 3) {
+			nng_aio_set_msg(saio, m);
+			nng_socket_send(pub, saio);
+			nng_aio_wait(saio);
+			rv = (int) nng_aio_result(saio);
+		} else {
+			rv = nng_sendmsg(pub, m, flags);
+		}
 		uint64_t dt = vf_now_ns() - t0;
 		if (dt > worst) worst = dt;
 		if (rv != 0) {
 			char key[128];
 			nng_msg_free(m);
-			snprintf(key, sizeof(key), "C05/pub-blocks/%s%s/sendbuf-%d", ename(rv), flags ? "-nonblock" : "", sendbuf);
+			snprintf(key, sizeof(key), "C05/pub-blocks/%s%s/sendbuf-%d", ename(rv), form == 2 ? "-nonblock" : form == 3 ? "-aio" : "", sendbuf);
 			vf_violation(key,
-			    "nng_sendmsg #%ld on PUB (SENDBUF %d, %d raw TCP subscribers that never read, %ld queue overflows so far) returned %s after %llu ms",
-			    i, sendbuf, nfd, discards, nng_strerror(rv), (unsigned long long) (dt / 1000000));
+			    "%s #%ld on PUB (SENDBUF %d%s, %d raw TCP subscribers that never read, %ld queue overflows so far) returned %s after %llu ms",
+			    form == 3 ? "nng_socket_send" : "nng_sendmsg", i, sendbuf, resized ? " changed while stuck" : "", nfd, discards,
+			    nng_strerror(rv), (unsigned long long) (dt / 1000000));
 			bad = true;
 			break;
 		}
 		sends++;
-		if (discards > 0) after_stuck++;
+		if (discards > 0) {
+			after_stuck++;
+			if (form == 3) aio_stuck++;
+		}
+		if (resize_plan && !resized && after_stuck >= 100) {
+			// change the depth of the (full) per-pipe queues in mid-stream
+			int nb = sbufs[vf_below(&r, 3)];
+			if (nb == sendbuf) nb = sendbuf == 16 ? 1 : 16;
+			if (nng_socket_set_int(pub, NNG_OPT_SENDBUF, nb) == 0) {
+				vf_stat("noblock_sendbuf_changes_while_stuck", 1);
+				vf_class("noblock/sendbuf-change/%d-to-%d", sendbuf, nb);
+				sendbuf = nb;
+			}
+			resized = true;
+		}
 		if ((i & 15) == 15) {
 			discards = sock_stat(pub, "tx_discard");
-			if (discards >= 200 * nfd && after_stuck >= 300) break;
+			if (discards >= 200 * nfd && after_stuck >= 300 && (!resize_plan || resized)) break;
 		}
 		if ((size_t) sends * msz > budget) break;
 		if ((i & 63) == 0) vf_watchdog(40);
 	}
+	nng_aio_free(saio);
 	discards = sock_stat(pub, "tx_discard");
+	vf_stat("noblock_aio_sends_with_stuck_peer", aio_stuck);
 	vf_stat("noblock_sends", sends);
 	vf_stat("noblock_sends_with_stuck_peer", after_stuck);
 	vf_stat("noblock_queue_overflows", discards > 0 ? discards : 0);
@@ -1827,6 +2199,7 @@ main(int argc, char **argv)
 	vf_init(argc, argv);
 	vf_nng_init(4, 2, 2);
 	void (*fn)(long) = det_case;
+	long ran = 0;
 	if (!strcmp(vf_mode, "conc")) {
 		fn = conc_case;
 	} else if (!strcmp(vf_mode, "noblock")) {
@@ -1838,6 +2211,7 @@ main(int argc, char **argv)
 		if (!vf_want_case(idx)) continue;
 		vf_watchdog(120);
 		fn(idx);
+		ran++;
 		if (vf_violations() >= 6) {
 			// the verdict is settled; do not spend the run's time-out
 			// on thousands of further failing cases
@@ -1854,5 +2228,10 @@ main(int argc, char **argv)
 	if (premature_timeouts) vf_stat("premature_aio_timeouts_tolerated", premature_timeouts);
 	if (abandoned_pipe_lost) vf_stat("cases_abandoned_pipe_lost", abandoned_pipe_lost);
 	if (abandoned_connect) vf_stat("cases_abandoned_connect_failed", abandoned_connect);
+	if (abandoned_pipe_lost + abandoned_connect > 3 && (abandoned_pipe_lost + abandoned_connect) * 50 > ran) {
+		// pipes that keep disappearing would silently shrink what is judged
+		vf_harness_fail("%ld of %ld cases abandoned (pipe lost %ld, connect failed %ld)", abandoned_pipe_lost + abandoned_connect, ran,
+		    abandoned_pipe_lost, abandoned_connect);
+	}
 	return vf_finish();
 }
